@@ -46,3 +46,6 @@ def run(prog, rep, tier, snap):
     rep.rule("R19.8", "the containers' functions carry no state from one container to the next", 1)
     rep.call(state.no_carried_state, prog, rep, "R19.8", "bitint")
 READY = True
+
+# texts brought up to date with the rules above (they supersede the first versions at the top of the module)
+LEVEL_TEXT = LEVEL_TEXT + (" Also: degrading a single stored value clears the representation tag on every path; no one-step shift by cursor + c.")
